@@ -342,6 +342,14 @@ func init() {
 			"lisp.(*LEnv).update": "the one store behind set!: lexical scopes first, then the current package",
 			"lisp/x/debugger/dapserver.(*handler).onSetVariable": "the debugger's setVariable request on a package-level variable (host tooling, not reachable from a program)"}},
 	)
+	callerSpecs = append(callerSpecs,
+		callerSpec{rule: "CALLERS.eval", target: "lisp.LEnv.eval", method: true, floor: 5, permitted: map[string]string{
+			"lisp.(*LEnv).Eval":          "the entry every special operator and builtin uses for a sub-form: saves and restores the location register around the raw evaluator (LOC.eval-restores), begins an evaluation",
+			"lisp.(*LEnv).EvalContext":   "the same entry with a context",
+			"lisp.(*LEnv).load":          "evaluates the forms of a loaded source one by one; saves and restores location and package itself (PAIR.load-package, LOC.eval-restores)",
+			"lisp.(*LEnv).evalSExprCells": "the evaluator itself: head and arguments of an application, under its own deferred location restore (PAIR.loc)",
+			"lisp.(*LEnv).call":          "the evaluator itself: the body forms of a lisp function in the callee's fresh environment, and the terminal expression of a collapsed tail call"}},
+	)
 	for _, sp := range callerSpecs {
 		sp := sp
 		if sp.permitted == nil {
